@@ -50,7 +50,23 @@ def main(argv):
     except MachineryError as e:
         print("MACHINERY-FAILURE property=%s: %s" % (prop, e))
         return 2
-    except Exception:
+    except Exception as ex:
+        # An exception that travelled through the code UNDER TEST (a driver calls the library outside its event recording: to
+        # prepare inputs, as an instrument, to generate positions) is a verdict, not a machinery failure: the same call returns
+        # normally on every tree on which this check passes.
+        repo = os.path.realpath(os.environ.get("GEODEPY_REPO", "/repo"))
+        frames = traceback.extract_tb(ex.__traceback__)
+        inrepo = [f for f in frames if os.path.realpath(f.filename).startswith(repo + os.sep)]
+        if inrepo and "ctx" in locals() and not getattr(ctx, "replaying", False):
+            f = inrepo[-1]
+            site = [g for g in frames if not os.path.realpath(g.filename).startswith(repo + os.sep)]
+            ctx.violation({"clause": "library_raised_in_driver_call", "function": f.name, "exception": type(ex).__name__},
+                          "%s: %s  (raised at %s:%s in %s; called from %s:%s)" % (
+                              type(ex).__name__, str(ex)[:200], os.path.relpath(f.filename, repo), f.lineno, f.name,
+                              os.path.basename(site[-1].filename) if site else "?", site[-1].lineno if site else 0),
+                          case={"kind": "driver_call"})
+            ctx.rule = ctx.rule or "run interrupted by an exception raised inside the library (see violations)"
+            return ctx.finish()
         traceback.print_exc()
         print("MACHINERY-FAILURE property=%s (exception in harness)" % prop)
         return 2
